@@ -147,6 +147,7 @@ def maps(run, thorough):
     from minecraft.networking.packets.clientbound.play import MapPacket as M
     from minecraft.networking.connection import ConnectionContext
     from minecraft.networking.packets import PacketBuffer
+    nonsquare_maps(run, M, ConnectionContext, thorough)
     rng = run.rng('maps')
     for h in range(240 if thorough else 12):
         if not run.mine(h):
@@ -754,3 +755,50 @@ def aliases(run):
                                       'pv': pv, 'gm': gm, 'hc': hc,
                                       'back': (j.pure_game_mode,
                                                j.is_hardcore)})
+
+
+def nonsquare_maps(run, M, ConnectionContext, thorough):
+    """Map objects need not be 128 x 128: a patch pixel i lands at
+    offset + (i mod patch width, i div patch width) of a map whose rows are
+    `map.width` long, whatever its height."""
+    if run.shard != 0:
+        return
+    rng = run.rng('maps-nonsquare')
+    ctx = ConnectionContext(protocol_version=757)
+    for (W, H) in ((128, 64), (64, 128), (48, 20), (10, 4), (4, 10), (16, 16),
+                   (1, 7), (7, 1), (128, 128)):
+        real = M.Map(5, 0, width=W, height=H)
+        model = bytearray(W * H)
+        for step in range(60 if thorough else 25):
+            w = rng.randrange(1, W + 1)
+            h = rng.randrange(1, H + 1)
+            ox, oz = rng.randrange(0, W - w + 1), rng.randrange(0, H - h + 1)
+            pkt = M(context=ctx)
+            pkt.map_id, pkt.scale = 5, step % 5
+            pkt.is_tracking_position, pkt.is_locked = True, False
+            pkt.icons = []
+            pkt.width, pkt.height, pkt.offset = w, h, (ox, oz)
+            pkt.pixels = bytes(rng.getrandbits(8) for _ in range(w * h))
+            try:
+                pkt.apply_to_map(real)
+            except Exception as e:
+                run.violation('maps/apply-raised', 'apply_to_map raised on an '
+                              'in-bounds patch', {
+                                  'map': (W, H), 'patch': (w, h),
+                                  'offset': (ox, oz), 'error': repr(e)})
+                break
+            for i, px in enumerate(pkt.pixels):
+                model[(ox + i % w) + W * (oz + i // w)] = px
+            run.count('map.nonsquare_patches')
+            if bytes(real.pixels) != bytes(model) or \
+                    len(real.pixels) != W * H:
+                bad = next((j for j in range(min(len(model),
+                                                 len(real.pixels)))
+                            if real.pixels[j] != model[j]), None)
+                run.violation('maps/state', 'pixels of a %d x %d map differ '
+                              'from the replayed patches' % (W, H), {
+                                  'map': (W, H), 'patch': (w, h),
+                                  'offset': (ox, oz), 'step': step,
+                                  'first_wrong_index': bad})
+                break
+        run.case(('nonsquare', W, H))
